@@ -42,6 +42,8 @@ func runC01(c *Ctx) {
 		tmo    time.Duration
 		kinds  []string
 		rtmo   time.Duration // RetryClient.ResponseTimeout
+		eofw   bool          // write errors of a broken link wrap io.EOF
+		reent  bool          // callbacks call back into the client (see rcCfg.Reentrant)
 		cancel bool          // the context given to Connect is cancelled as soon as Connect has returned
 		manual bool          // the application drives a bare RetryClient (own redial loop) instead of a ReconnectClient
 	}
@@ -56,6 +58,8 @@ func runC01(c *Ctx) {
 		{name: "manual.N2.F1", n: 2, bound: vrt.Budget{F: 1}, faults: conn, keep: []bool{true, false}, phases: []byte{'B', 'N', 'O'}, kinds: []string{"p1", "p2", "sub"}, manual: true},
 		{name: "N2.F1.connect-ctx-cancelled", n: 2, bound: vrt.Budget{F: 1}, faults: base, keep: []bool{true}, phases: []byte{'S', 'N', 'O'}, kinds: []string{"p1", "p2", "sub", "unsub"}, cancel: true},
 		{name: "N2.F1.silent-link.response-timeout", n: 2, bound: vrt.Budget{F: 1}, faults: env.FaultSet{Silent: true, SilentDrop: true, OnlyTypes: map[byte]bool{env.PUBLISH: true, env.PUBREL: true, env.SUBSCRIBE: true, env.UNSUBSCRIBE: true}}, keep: []bool{true}, phases: []byte{'S', 'N'}, kinds: []string{"p1", "p2", "sub", "unsub"}, rtmo: 2 * time.Second},
+		{name: "N2.F1.reentrant-callbacks", n: 2, bound: vrt.Budget{F: 1}, faults: base, keep: []bool{true}, phases: []byte{'B', 'S', 'N'}, kinds: []string{"p1", "p2", "sub"}, reent: true},
+		{name: "N2.F2.eof-write-errors", n: 2, bound: vrt.Budget{F: 2}, faults: env.FaultSet{WriteErr: true, LostClose: true}, keep: []bool{true}, phases: []byte{'B', 'S', 'N'}, kinds: []string{"p1", "p2", "sub", "unsub"}, eofw: true},
 		{name: "N1.F2.noconnack", n: 1, bound: vrt.Budget{F: 2}, faults: env.FaultSet{NoConnAck: true, LostClose: true, OnlyTypes: map[byte]bool{env.CONNECT: true, env.PUBLISH: true, env.SUBSCRIBE: true}}, keep: []bool{true}, phases: []byte{'B', 'S'}, tmo: 3 * time.Second, kinds: all},
 	}
 	quickN := len(fams) // the thorough tier runs the quick families first, unchanged, then the deeper ones
@@ -88,7 +92,7 @@ func runC01(c *Ctx) {
 					Bound: f.bound,
 					Cfg:   vrt.Config{Horizon: int64(300 * time.Second)},
 					Body: func() {
-						rcExecuteInto(&rcCfg{Reqs: reqs, Faults: f.faults, KeepSession: keep, ConnTimeout: f.tmo, Manual: f.manual, CancelConnectCtx: f.cancel, RespTimeout: f.rtmo}, &run)
+						rcExecuteInto(&rcCfg{Reqs: reqs, Faults: f.faults, KeepSession: keep, ConnTimeout: f.tmo, Manual: f.manual, CancelConnectCtx: f.cancel, RespTimeout: f.rtmo, Reentrant: f.reent, EOFWriteErrors: f.eofw}, &run)
 						c01Oracle(run)
 					},
 					Observe: func() uint64 { return run.net.TraceHash() },
